@@ -89,7 +89,22 @@ class C04(common.Spec):
                 stranger = edzed.Input('stranger', initdef=0)
                 for st in d['exit_bad']:
                     kw['on_exit_' + st] = edzed.Event(stranger, 'nosuch')
+            class BadStop(edzed.SBlock):
+                """other blocks whose stop() fails: such errors are logged and ignored, every block is
+                stopped nevertheless (an FSM's stop() is what cancels its timer)"""
+                def init_regular(self):
+                    self.set_output(0)
+
+                def stop(self):
+                    raise RuntimeError('stop failed')
+            bad_stop = len(case.get('events', ())) % 2 == 0
+            if bad_stop:
+                for k in range(4):
+                    BadStop(f'bad{k}')
             fsm = cls('fsm', **kw)
+            if bad_stop:
+                for k in range(4, 8):
+                    BadStop(f'bad{k}')
             state['fsm'] = fsm
             orig_event = fsm.event
 
